@@ -1031,6 +1031,7 @@ type wmRecEvent struct {
 	X    int64  `json:"x"`
 	Y    int64  `json:"y"`
 	Z    int64  `json:"z"`
+	T    int64  `json:"t"` // time of the event in microseconds (virtual inside a synctest bubble)
 }
 
 type wmRecTrace struct {
@@ -1057,7 +1058,7 @@ func (r *wmRec) add(w *peerWorkManager, e wmEvent) {
 	if k < 0 {
 		k = 4
 	}
-	t.Events = append(t.Events, wmRecEvent{e.ev, e.addr, k, e.x, e.y, e.z})
+	t.Events = append(t.Events, wmRecEvent{e.ev, e.addr, k, e.x, e.y, e.z, time.Now().UnixMicro()})
 }
 
 func (r *wmRec) write(fn string) error {
